@@ -154,20 +154,21 @@ Definition prim_of_name (id : str) : option prim :=
 
 Definition UNSUPPORTED_INTS : list str := [lit "u64"; lit "i64"; lit "usize"; lit "isize"].
 
-(* the `match id.as_str()` of rust_types.rs:364-406, after the parameters have been parsed *)
+(* the `match id.as_str()` of rust_types.rs, after the parameters have been parsed; a container or smart pointer
+   written without its type argument(s) is an error naming it (required_parameter, /repo fix) *)
 Definition path_dispatch (id : str) (params : list rtype) : outcome rtype :=
   if str_eqb id (lit "Vec") then
-    match params with x :: _ => Ok (RVec x) | [] => Panic "rust_types.rs:366" end
+    match params with x :: _ => Ok (RVec x) | [] => Err (EUnsupportedType [id]) end
   else if str_eqb id (lit "Option") then
-    match params with x :: _ => Ok (ROption x) | [] => Panic "rust_types.rs:369" end
+    match params with x :: _ => Ok (ROption x) | [] => Err (EUnsupportedType [id]) end
   else if str_eqb id (lit "HashMap") then
     match params with
     | k :: v :: _ => Ok (RHashMap k v)
-    | [_] => Panic "rust_types.rs:375"
-    | [] => Panic "rust_types.rs:374"
+    | [_] => Err (EUnsupportedType [id])
+    | [] => Err (EUnsupportedType [id])
     end
   else if mem_str id SMART_POINTERS then
-    match params with x :: _ => Ok x | [] => Panic "rust_types.rs:383" end
+    match params with x :: _ => Ok x | [] => Err (EUnsupportedType [id]) end
   else if mem_str id UNSUPPORTED_INTS then Err (EUnsupportedType [id])
   else match prim_of_name id with
        | Some p => Ok (RPrim p)
